@@ -7,21 +7,24 @@ import (
 	"testing"
 )
 
-// TestReplay re-executes one saved case (VERIF_REPLAY) through the plain check, bypassing rapid.
+// TestReplay re-executes saved cases (VERIF_REPLAY: newline separated paths) through the plain checks, bypassing rapid.
 func TestReplay(t *testing.T) {
-	path := os.Getenv("VERIF_REPLAY")
-	if path == "" {
+	list := os.Getenv("VERIF_REPLAY")
+	if list == "" {
 		t.Skip("VERIF_REPLAY not set")
 	}
-	id, err := replayFile(path)
-	switch {
-	case err == nil:
-		fmt.Printf("REPLAY-PASS property=%s file=%s\n", id, path)
-	case strings.HasPrefix(err.Error(), "REPLAY-DECODE"):
-		fmt.Printf("REPLAY-INFRA %v\n", err)
-		t.Fatalf("infra: %v", err)
-	default:
-		fmt.Printf("REPLAY-FAIL property=%s file=%s\n%v\n", id, path, err)
-		t.Fail()
+	for _, path := range strings.Split(list, "\n") {
+		if path == "" {
+			continue
+		}
+		id, err := replayFile(path)
+		switch {
+		case err == nil:
+			fmt.Printf("REPLAY-PASS property=%s file=%s\n", id, path)
+		case strings.HasPrefix(err.Error(), "REPLAY-DECODE"):
+			fmt.Printf("REPLAY-INFRA property=%s file=%s\n%v\n", id, path, err)
+		default:
+			fmt.Printf("REPLAY-FAIL property=%s file=%s\n%v\n", id, path, err)
+		}
 	}
 }
